@@ -19,21 +19,37 @@ def queueEvents (r : Nat) (rd : Round) (batch : List Nat) : List Event :=
 
 def acc0 (st : St) : Acc := ⟨st.res, st.allOK, [], false, st.unretry, false⟩
 
-/-- One pass through the retry loop: `findClients` fails, or the wait phase runs and then the loop
-ends (possibly inside the back-off sleep) or goes on with the calls to retry. -/
+@[simp] theorem afterLocate_res (b0 rd batch st) :
+    (afterLocate b0 rd batch st).res = locateErrors b0 rd batch st.res := rfl
+@[simp] theorem afterLocate_allOK (b0 rd batch st) :
+    (afterLocate b0 rd batch st).allOK = (st.allOK && !batch.any (ownGone rd)) := rfl
+@[simp] theorem afterLocate_unretry (b0 rd batch st) :
+    (afterLocate b0 rd batch st).unretry = (st.unretry || batch.any (ownGone rd)) := rfl
+@[simp] theorem afterLocate_backoff (b0 rd batch st) : (afterLocate b0 rd batch st).backoff = st.backoff := rfl
+@[simp] theorem afterLocate_immediate (b0 rd batch st) :
+    (afterLocate b0 rd batch st).immediate = st.immediate := rfl
+@[simp] theorem afterLocate_events (b0 rd batch st) : (afterLocate b0 rd batch st).events = st.events := rfl
+
+/-- One pass through the retry loop: `findClients` fails (some call cannot be located for another
+reason than its own context), or the calls whose own context ended the wait for their region are
+failed alone (`afterLocate`), the wait phase runs on the others (`liveCalls`) and then the loop ends
+(possibly inside the back-off sleep) or goes on with the calls to retry. -/
 theorem loop_cons {b0 : List Nat} {rd : Round} {rest : List Round} {r : Nat} {batch : List Nat} {st : St}
     {R : Result} (h : loop b0 (rd :: rest) r batch st = .ok R) :
-    (batch.any (fun c => !locOk rd c) = true ∧
+    (batch.any (fun c => !locOk rd c && !ownGone rd c) = true ∧
       R = ⟨locateErrors b0 rd batch st.res, false, st.events, false⟩) ∨
-    (batch.any (fun c => !locOk rd c) = false ∧ ∃ a,
-      waitAll b0 rd.ans (cancelPos rd.cancel) (groups rd batch) 0 (acc0 st) = .ok a ∧
-      ((∃ tail, R = ⟨a.res, a.allOK, st.events ++ queueEvents r rd batch ++ tail, a.interrupted⟩ ∧
+    (batch.any (fun c => !locOk rd c && !ownGone rd c) = false ∧ ∃ a,
+      waitAll b0 rd.ans (cancelPos rd.cancel) (groups rd (liveCalls rd batch)) 0
+        (acc0 (afterLocate b0 rd batch st)) = .ok a ∧
+      ((∃ tail, R = ⟨a.res, a.allOK, st.events ++ queueEvents r rd (liveCalls rd batch) ++ tail,
+            a.interrupted⟩ ∧
           (∀ e ∈ tail, isSleepCut e = true) ∧
           (a.retries = [] ∨ ctxDoneAfterWait rd.cancel = true ∨ tail ≠ [])) ∨
        (a.retries ≠ [] ∧ ctxDoneAfterWait rd.cancel = false ∧ ∃ bo imm tail,
           (∀ e ∈ tail, isSleep e = true) ∧
           loop b0 rest (r + 1) a.retries
-            ⟨a.res, !a.unretry, a.unretry, bo, imm, st.events ++ queueEvents r rd batch ++ tail⟩ = .ok R))) := by
+            ⟨a.res, !a.unretry, a.unretry, bo, imm,
+             st.events ++ queueEvents r rd (liveCalls rd batch) ++ tail⟩ = .ok R))) := by
   simp only [loop] at h
   split at h
   · rename_i hany
@@ -115,16 +131,26 @@ theorem loop_frame {b0 : List Nat} {rounds : List Round} {r : Nat} {batch : List
   | cons rd rest ih =>
     rcases loop_cons h with ⟨_, rfl⟩ | ⟨_, a, ha, hcase⟩
     · exact locateErrors_frame hb hd hn
-    · obtain ⟨pre, post, hm, _, hres, hret, _⟩ := round_flat ha
+    · -- the calls failed alone are calls of the batch; go on from the state after `findClients`
+      have hb' : ∀ c ∈ liveCalls rd batch, c ∈ b0 := fun c hc => hb c (liveCalls_sub hc)
+      have hn' : d ∉ liveCalls rd batch := fun hc => hn (liveCalls_sub hc)
+      have hfr : getSlot b0 (afterLocate b0 rd batch st).res d = getSlot b0 st.res d := by
+        rw [afterLocate_res]; exact locateErrors_frame hb hd hn
+      rw [← hfr]
+      clear hfr
+      revert ha hcase hb' hn'
+      generalize afterLocate b0 rd batch st = st', liveCalls rd batch = live
+      intro ha hcase hb hn
+      obtain ⟨pre, post, hm, _, hres, hret, _⟩ := round_flat ha
       have hpre : ∀ c ∈ pre, c ∈ b0 := fun c hc => hb c ((hm c).mp (List.mem_append_left _ hc))
       have hpost : ∀ c ∈ post, c ∈ b0 := fun c hc => hb c ((hm c).mp (List.mem_append_right _ hc))
       have hdpre : d ∉ pre := fun hc => hn ((hm d).mp (List.mem_append_left _ hc))
       have hdpost : d ∉ post := fun hc => hn ((hm d).mp (List.mem_append_right _ hc))
-      have hframe : getSlot b0 a.res d = getSlot b0 st.res d := by
+      have hframe : getSlot b0 a.res d = getSlot b0 st'.res d := by
         rw [hres, sweep_frame hpost hd hdpost, foldl_wr1_frame hpre hd hdpre]
       rcases hcase with ⟨tail, rfl, _⟩ | ⟨_, _, bo, imm, tail, _, hrec⟩
       · exact hframe
-      · have hsub : ∀ c ∈ a.retries, c ∈ batch := by rw [hret]; exact retries_sub hm
+      · have hsub : ∀ c ∈ a.retries, c ∈ live := by rw [hret]; exact retries_sub hm
         rw [ih hrec (fun c hc => hb c (hsub c hc)) (fun hc => hn (hsub d hc))]
         exact hframe
 
@@ -138,14 +164,19 @@ theorem loop_inv {P : Nat → Slot → Prop} {b0 : List Nat} {rounds : List Roun
     have hrd := hr rd (List.mem_cons_self ..)
     rcases loop_cons h with ⟨_, rfl⟩ | ⟨_, a, ha, hcase⟩
     · exact hs.locateErrors hrd hb
-    · obtain ⟨pre, post, hm, _, hres, hret, _⟩ := round_flat ha
+    · have hb' : ∀ c ∈ liveCalls rd batch, c ∈ b0 := fun c hc => hb c (liveCalls_sub hc)
+      have hs' : SlotsInv P b0 (afterLocate b0 rd batch st).res := hs.locateErrors hrd hb
+      revert ha hcase hb' hs'
+      generalize afterLocate b0 rd batch st = st', liveCalls rd batch = live
+      intro ha hcase hb hs
+      obtain ⟨pre, post, hm, _, hres, hret, _⟩ := round_flat ha
       have hpre : ∀ c ∈ pre, c ∈ b0 := fun c hc => hb c ((hm c).mp (List.mem_append_left _ hc))
       have hpost : ∀ c ∈ post, c ∈ b0 := fun c hc => hb c ((hm c).mp (List.mem_append_right _ hc))
       have ha' : SlotsInv P b0 a.res := by
         rw [hres]; exact (hs.foldl_wr1 hrd hpre).sweep hrd hpost
       rcases hcase with ⟨tail, rfl, _⟩ | ⟨_, _, bo, imm, tail, _, hrec⟩
       · exact ha'
-      · have hsub : ∀ c ∈ a.retries, c ∈ batch := by rw [hret]; exact retries_sub hm
+      · have hsub : ∀ c ∈ a.retries, c ∈ live := by rw [hret]; exact retries_sub hm
         exact ih hrec (fun c hc => hb c (hsub c hc)) (fun x hx => hr x (List.mem_cons_of_mem _ hx)) ha'
 
 
@@ -222,7 +253,8 @@ theorem loop_allOK {b0 : List Nat} {rounds : List Round} {r : Nat} {batch : List
     · refine ⟨fun h => Bool.noConfusion h, fun hall => ?_⟩
       obtain ⟨c, hc, hloc⟩ := List.any_eq_true.mp hany
       have : ∃ e, rd.locate c = .error e := by
-        simp only [locOk] at hloc
+        simp only [Bool.and_eq_true, Bool.not_eq_true', locOk] at hloc
+        replace hloc := hloc.1
         split at hloc
         · cases hloc
         · rename_i e he; exact ⟨e, he⟩
@@ -230,18 +262,47 @@ theorem loop_allOK {b0 : List Nat} {rounds : List Round} {r : Nat} {batch : List
       have := hall c (hb c hc)
       rw [locateErrors_self hb hl hc he] at this
       cases this
-    · obtain ⟨pre, post, hm, hpost0, hres, hret, _, hun, hallok, hsil⟩ := round_flat ha
+    · -- the state after `findClients` (calls failed alone by their own context) satisfies the
+      -- bookkeeping invariant for the remaining calls
+      have hb' : ∀ c ∈ liveCalls rd batch, c ∈ b0 := fun c hc => hb c (liveCalls_sub hc)
+      have hl' : (afterLocate b0 rd batch st).res.length = b0.length := by simp [hl]
+      have h2' : (afterLocate b0 rd batch st).allOK = !(afterLocate b0 rd batch st).unretry := by
+        simp only [afterLocate_allOK, afterLocate_unretry, h2]
+        cases st.unretry <;> cases batch.any (ownGone rd) <;> rfl
+      have h3' : (afterLocate b0 rd batch st).unretry = true ↔
+          ∃ c ∈ b0, c ∉ liveCalls rd batch ∧ (getSlot b0 (afterLocate b0 rd batch st).res c).err ≠ none := by
+        simp only [afterLocate_unretry, afterLocate_res, Bool.or_eq_true]
+        constructor
+        · rintro (hu | hg)
+          · obtain ⟨c, hc, hcb, he⟩ := h3.mp hu
+            exact ⟨c, hc, fun hcl => hcb (liveCalls_sub hcl), by rw [locateErrors_frame hb hc hcb]; exact he⟩
+          · obtain ⟨c, hcb, hcg⟩ := List.any_eq_true.mp hg
+            refine ⟨c, hb c hcb, fun hcl => ?_, ?_⟩
+            · rw [(mem_liveCalls.mp hcl).2] at hcg; cases hcg
+            · rw [locateErrors_self hb hl hcb (ownGone_locate hcg)]; simp
+        · rintro ⟨c, hc, hcl, he⟩
+          by_cases hcb : c ∈ batch
+          · refine Or.inr (List.any_eq_true.mpr ⟨c, hcb, ?_⟩)
+            cases hg : ownGone rd c
+            · exact absurd (mem_liveCalls.mpr ⟨hcb, hg⟩) hcl
+            · rfl
+          · rw [locateErrors_frame hb hc hcb] at he
+            exact Or.inl (h3.mpr ⟨c, hc, hcb, he⟩)
+      revert ha hcase hb' hl' h2' h3'
+      generalize afterLocate b0 rd batch st = st', liveCalls rd batch = live
+      intro ha hcase hb hl h2 h3
+      obtain ⟨pre, post, hm, hpost0, hres, hret, _, hun, hallok, hsil⟩ := round_flat ha
       have hpre : ∀ c ∈ pre, c ∈ b0 := fun c hc => hb c ((hm c).mp (List.mem_append_left _ hc))
       have hpostb : ∀ c ∈ post, c ∈ b0 := fun c hc => hb c ((hm c).mp (List.mem_append_right _ hc))
-      have hmid : (pre.foldl (wr1 b0 rd.ans) st.res).length = b0.length := by simp [hl]
-      -- slots of calls outside the round's batch are untouched
-      have hframe : ∀ d ∈ b0, d ∉ batch → getSlot b0 a.res d = getSlot b0 st.res d := by
+      have hmid : (pre.foldl (wr1 b0 rd.ans) st'.res).length = b0.length := by simp [hl]
+      -- slots of calls outside the round's live are untouched
+      have hframe : ∀ d ∈ b0, d ∉ live → getSlot b0 a.res d = getSlot b0 st'.res d := by
         intro d hd hn
         have hdpre : d ∉ pre := fun hc => hn ((hm d).mp (List.mem_append_left _ hc))
         have hdpost : d ∉ post := fun hc => hn ((hm d).mp (List.mem_append_right _ hc))
         rw [hres, sweep_frame hpostb hd hdpost, foldl_wr1_frame hpre hd hdpre]
-      -- every call of the batch ends the round with a nil error exactly when its answer is a success
-      have hslot : ∀ c ∈ batch, ((getSlot b0 a.res c).err = none ↔ isOkAns (rd.ans c) = true) := by
+      -- every call of the live ends the round with a nil error exactly when its answer is a success
+      have hslot : ∀ c ∈ live, ((getSlot b0 a.res c).err = none ↔ isOkAns (rd.ans c) = true) := by
         intro c hc
         by_cases hcp : c ∈ post
         · have := sweep_self (ans := rd.ans) hpostb hmid hcp
@@ -259,14 +320,14 @@ theorem loop_allOK {b0 : List Nat} {rounds : List Round} {r : Nat} {batch : List
           simp only [Bool.and_eq_true, List.all_eq_true] at hok
           obtain ⟨⟨hst, hallpre⟩, hallpost⟩ := hok
           intro c hc
-          by_cases hcb : c ∈ batch
+          by_cases hcb : c ∈ live
           · refine (hslot c hcb).mpr ?_
             rcases List.mem_append.mp ((hm c).mpr hcb) with h | h
             · exact hallpre c h
             · exact hallpost c h
           · rw [hframe c hc hcb]
-            have hu : st.unretry = false := by rw [hst] at h2; simpa using h2.symm
-            by_cases he : (getSlot b0 st.res c).err = none
+            have hu : st'.unretry = false := by rw [hst] at h2; simpa using h2.symm
+            by_cases he : (getSlot b0 st'.res c).err = none
             · exact he
             · have := h3.mpr ⟨c, hc, hcb, he⟩
               rw [hu] at this; cases this
@@ -275,27 +336,27 @@ theorem loop_allOK {b0 : List Nat} {rounds : List Round} {r : Nat} {batch : List
           simp only [Bool.and_eq_true, List.all_eq_true]
           refine ⟨⟨?_, ?_⟩, ?_⟩
           · rw [h2]
-            cases hu : st.unretry
+            cases hu : st'.unretry
             · rfl
             · obtain ⟨c, hc, hcb, he⟩ := h3.mp hu
               rw [← hframe c hc hcb] at he
               exact absurd (hnil c hc) he
           · intro c hcp
-            have hcb : c ∈ batch := (hm c).mp (List.mem_append_left _ hcp)
+            have hcb : c ∈ live := (hm c).mp (List.mem_append_left _ hcp)
             exact (hslot c hcb).mp (hnil c (hb c hcb))
           · intro c hcp
-            have hcb : c ∈ batch := (hm c).mp (List.mem_append_right _ hcp)
+            have hcb : c ∈ live := (hm c).mp (List.mem_append_right _ hcp)
             exact (hslot c hcb).mp (hnil c (hb c hcb))
       rcases hcase with ⟨tail, rfl, _⟩ | ⟨_, hnd, bo, imm, tail, _, hrec⟩
       · exact hexit
-      · have hsub : ∀ c ∈ a.retries, c ∈ batch := by rw [hret]; exact retries_sub hm
+      · have hsub : ∀ c ∈ a.retries, c ∈ live := by rw [hret]; exact retries_sub hm
         have hint : a.interrupted = false := by
           rw [cancelPos_none_of_not_done hnd] at ha
           exact waitAll_no_cancel ha rfl
         have hp := hpost0 hint
         subst hp
         have hal : a.res.length = b0.length := by rw [hres]; simp [hl]
-        have hinpre : ∀ c ∈ batch, c ∈ pre := fun c hc => by simpa using (hm c).mpr hc
+        have hinpre : ∀ c ∈ live, c ∈ pre := fun c hc => by simpa using (hm c).mpr hc
         refine ih hrec (fun c hc => hb c (hsub c hc)) hal rfl ?_
         show a.unretry = true ↔ _
         rw [hun]
@@ -305,7 +366,7 @@ theorem loop_allOK {b0 : List Nat} {rounds : List Round} {r : Nat} {batch : List
           rcases hu with hu | ⟨c, hcp, hcu⟩
           · obtain ⟨c, hc, hcb, he⟩ := h3.mp hu
             exact ⟨c, hc, fun hcr => hcb (hsub c hcr), by rw [hframe c hc hcb]; exact he⟩
-          · have hcb : c ∈ batch := (hm c).mp (List.mem_append_left _ hcp)
+          · have hcb : c ∈ live := (hm c).mp (List.mem_append_left _ hcp)
             refine ⟨c, hb c hcb, ?_, ?_⟩
             · rw [hret]; intro hcr
               have := (List.mem_filter.mp hcr).2
@@ -315,7 +376,7 @@ theorem loop_allOK {b0 : List Nat} {rounds : List Round} {r : Nat} {batch : List
               cases hac : rd.ans c <;> simp_all [isOkAns, Ans.isOk, isUnretry]
         · rintro ⟨c, hc, hcr, he⟩
           simp only [Bool.or_eq_true, List.any_eq_true]
-          by_cases hcb : c ∈ batch
+          by_cases hcb : c ∈ live
           · have hcp := hinpre c hcb
             refine Or.inr ⟨c, hcp, ?_⟩
             have hnok : isOkAns (rd.ans c) = false := by
@@ -328,6 +389,52 @@ theorem loop_allOK {b0 : List Nat} {rounds : List Round} {r : Nat} {batch : List
               · exact absurd (by rw [hret]; exact List.mem_filter.mpr ⟨hcp, hk⟩) hcr
             exact not_ok_retry_unretry hnok hnr (hsil c hcp)
           · exact Or.inl (h3.mpr ⟨c, hc, hcb, by rw [← hframe c hc hcb]; exact he⟩)
+
+/-! ### calls failed alone by their own context during region location -/
+
+theorem afterLocate_live {b0 : List Nat} {rd : Round} {batch : List Nat} {st : St}
+    (hany : batch.any (fun c => !locOk rd c && !ownGone rd c) = false) :
+    afterLocate b0 rd (liveCalls rd batch) st = st := by
+  have h1 : locateErrors b0 rd (liveCalls rd batch) st.res = st.res :=
+    locateErrors_id (fun c hc => locOk_of_live hany hc)
+  simp only [afterLocate, h1, any_ownGone_live]
+  cases st; simp
+
+theorem live_any_false {rd : Round} {batch : List Nat}
+    (hany : batch.any (fun c => !locOk rd c && !ownGone rd c) = false) :
+    (liveCalls rd batch).any (fun c => !locOk rd c && !ownGone rd c) = false := by
+  rw [List.any_eq_false] at hany ⊢
+  intro c hc
+  exact hany c (liveCalls_sub hc)
+
+/-- **The round goes on without the calls whose own context ended the wait for their region**: as
+long as `findClients` returns `ok == true`, a pass through the retry loop is the pass over the
+remaining calls (`liveCalls`: the others are neither queued, nor waited for, nor retried) from the
+state in which the calls failed alone carry their own-context error (`afterLocate`). -/
+theorem loop_skip_ownGone {b0 : List Nat} {rd : Round} {rest : List Round} {r : Nat} {batch : List Nat}
+    {st : St} (hany : batch.any (fun c => !locOk rd c && !ownGone rd c) = false) :
+    loop b0 (rd :: rest) r batch st =
+      loop b0 (rd :: rest) r (liveCalls rd batch) (afterLocate b0 rd batch st) := by
+  simp only [loop, hany, live_any_false hany, liveCalls_idem, afterLocate_live hany, Bool.false_eq_true,
+    if_false]
+
+/-- A call of the round's batch whose own context ended the wait for its region ends with exactly
+its own-context error, whatever happens to the other calls in this and in later rounds. -/
+theorem loop_ownGone_slot {b0 : List Nat} {rd : Round} {rest : List Round} {r : Nat} {batch : List Nat}
+    {st : St} {R : Result} (h : loop b0 (rd :: rest) r batch st = .ok R) (hb : ∀ c ∈ batch, c ∈ b0)
+    (hl : st.res.length = b0.length) {c : Nat} (hc : c ∈ batch) (hg : ownGone rd c = true) :
+    getSlot b0 R.res c = ⟨none, some (.ownCtx c)⟩ := by
+  by_cases hany : batch.any (fun c => !locOk rd c && !ownGone rd c) = true
+  · rcases loop_cons h with ⟨_, rfl⟩ | ⟨hno, _⟩
+    · exact locateErrors_self hb hl hc (ownGone_locate hg)
+    · rw [hany] at hno; cases hno
+  · have hany' : batch.any (fun c => !locOk rd c && !ownGone rd c) = false := by
+      simpa using hany
+    rw [loop_skip_ownGone hany'] at h
+    have hcl : c ∉ liveCalls rd batch := fun hcl => by
+      rw [(mem_liveCalls.mp hcl).2] at hg; cases hg
+    rw [loop_frame h (fun d hd => hb d (liveCalls_sub hd)) (hb c hc) hcl, afterLocate_res]
+    exact locateErrors_self hb hl hc (ownGone_locate hg)
 
 /-! ### validation -/
 
